@@ -26,7 +26,7 @@ META = {
     ],
     "bounds": {
         "quick": "4 models (2-4 parameters) x every fixed mask x do_stitch in {False, True} x {scipy, minuit} wrappers x fit / fixed_poi_fit; return-flag combinations on one mask per model",
-        "thorough": "6 models (up to 5 parameters) x every fixed mask x all flag combinations",
+        "thorough": "every member of family F with a POI and 12 seeded shapes x every fixed mask (beyond 5 parameters: none, all, each single one and 16 seeded masks) x all flag combinations",
     },
     "stubs": ["pyhf.optimize.opt_scipy.scipy.optimize.minimize -> MinimizeStub", "pyhf.optimize.opt_minuit.iminuit.Minuit -> FakeMinuit"],
     "also": "the pure-Python objective body of the jax wrapper (opt_jax._final_objective) is executed symbolically for every fixed mask: it must equal twice_nll at the correctly stitched point",
@@ -43,11 +43,16 @@ SPECFIXED = "pair:histosys+normsys"      # also run with one nuisance parameter 
 def items(tier, seed):
     out = []
     nm = 4 if tier == "quick" else 6
-    for mi in range(nm):
+    tags = MODELS[:nm]
+    if tier != "quick":
+        # every other member of family F that has a POI, and 12 seeded shapes (masks sampled when there are > 5 parameters)
+        tags += [s["tag"] for s in shapes.family_core() if s.get("poi") and s["tag"] not in tags]
+        tags += [s["tag"] for s in shapes.family_plus(seed, 12)]
+    for tag in tags:
         for opt in ("scipy", "minuit"):
             for stitch in (False, True):
                 for which in ("fit", "fixed_poi_fit"):
-                    out.append((MODELS[mi], opt, stitch, which))
+                    out.append((tag, opt, stitch, which))
     for opt in ("scipy", "minuit"):
         for stitch in (False, True):
             for which in ("fit", "fixed_poi_fit"):
@@ -63,7 +68,8 @@ def items(tier, seed):
 def _model(env, tag):
     specfixed = tag.endswith("+specfixed")
     tag = tag.replace("+specfixed", "")
-    sh = next(s for s in shapes.family_core() if s["tag"] == tag)
+    fam = shapes.family_plus(env.seed, 12) if tag.startswith("rand") else shapes.family_core()
+    sh = next(s for s in fam if s["tag"] == tag)
     spec = shapes.realize(env, sh["spec"])
     if specfixed:
         # the measurement declares a nuisance parameter fixed; a caller who passes its own mask overrides that
@@ -142,6 +148,11 @@ def harness_for(item):
         masks = list(itertools.product((0, 1), repeat=n))
         if env.tier == "quick" and n > 3:
             masks = masks[::2] + [masks[-1]]
+        elif n > 5:
+            import random
+            rng = random.Random(f"{mtag}:{env.seed}")
+            single = [tuple(int(i == j) for i in range(n)) for j in range(n)]
+            masks = [masks[0], masks[-1]] + single + rng.sample(masks[1:-1], 16)
         for mk, mask in enumerate(masks):
             if which == "fit" and all(mask) and False:
                 continue
